@@ -197,7 +197,36 @@ async def drive_client(transport, steps, log, q):
     return outcomes
 
 
+# other ways of obtaining each carrier ("carrier@entry"): the factories and migration helpers of the transports package.
+# They must give the very same conversation as the direct context manager.
+ENTRIES = {
+    "stdio": ["create_client", "create_transport"],
+    "http-json": ["create_client", "create_transport", "try_http_with_sse_fallback:server-speaks-http",
+                  "try_http_with_sse_fallback:server-speaks-both"],
+    "http-sse": ["create_client", "create_transport", "try_http_with_sse_fallback:server-speaks-http"],
+    "legacy-sse": ["create_client", "create_transport", "try_sse_with_fallback", "try_http_with_sse_fallback:server-speaks-sse-only",
+                   "try_http_with_sse_fallback:server-speaks-neither-way-of-detection"],
+}
+JUDGE_HTTP_FACTORY = False        # see "OPEN OBSERVATION" in run_one
+DETECT_ID = "transport-detect"      # the id detect_transport_type uses for its probe request
+
+
+class _via_transport:
+    """async with transport -> its (read, write) streams."""
+
+    def __init__(self, transport):
+        self.t = transport
+
+    async def __aenter__(self):
+        await self.t.__aenter__()
+        return await self.t.get_streams()
+
+    async def __aexit__(self, *a):
+        return await self.t.__aexit__(*a)
+
+
 def run_carrier(carrier: str, steps: List[dict], driver: str = "helpers") -> Dict[str, Any]:
+    carrier, _, entry = carrier.partition("@")
     loop = new_loop(horizon=400)
     q = seams.Quiescence(loop)
     script = Script(steps, init_by_method=(driver == "mcpclient"))
@@ -228,14 +257,35 @@ def run_carrier(carrier: str, steps: List[dict], driver: str = "helpers") -> Dic
 
                         info["outcomes"] = await drive_client(StdioTransport(seams.stdio_params()), steps, log, q)
                     else:
-                        async with stdio_client(seams.stdio_params()) as (read, write):
+                        if entry == "create_client":
+                            from chuk_mcp.transports import create_client
+
+                            cm = create_client("stdio", seams.stdio_params())
+                        elif entry == "create_transport":
+                            from chuk_mcp.transports import create_transport
+
+                            cm = _via_transport(create_transport("stdio", seams.stdio_params()))
+                        else:
+                            cm = stdio_client(seams.stdio_params())
+                        async with cm as (read, write):
                             info["outcomes"] = await drive(read, write, steps, log, q)
             elif carrier in ("http-json", "http-sse"):
                 from chuk_mcp.transports.http.http_client import http_client
                 from chuk_mcp.transports.http.parameters import StreamableHTTPParameters
 
                 def handler(rec):
-                    msgs = script.answer(rec.json())
+                    sent = rec.json()
+                    if rec.method == "GET":
+                        # only detect_transport_type sends GETs here: does an event stream live next to the endpoint?
+                        info["detect_gets"] = info.get("detect_gets", 0) + 1
+                        if entry.endswith("server-speaks-both"):
+                            return httpx.Response(200, headers={"content-type": "text/event-stream"}, content=b": hello\n\n")
+                        return httpx.Response(404, content=b"no event stream here")
+                    if isinstance(sent, dict) and sent.get("id") == DETECT_ID:
+                        info["detect_posts"] = info.get("detect_posts", 0) + 1
+                        return httpx.Response(200, headers={"content-type": "application/json"},
+                                              content=json.dumps({"jsonrpc": "2.0", "id": DETECT_ID, "result": {}}).encode())
+                    msgs = script.answer(sent)
                     if not msgs:
                         return httpx.Response(202)
                     if carrier == "http-json":
@@ -251,7 +301,22 @@ def run_carrier(carrier: str, steps: List[dict], driver: str = "helpers") -> Dic
                         info["outcomes"] = await drive_client(
                             StreamableHTTPTransport(StreamableHTTPParameters(url="http://mcp.test/mcp", timeout=5.0)), steps, log, q)
                     else:
-                        async with http_client(StreamableHTTPParameters(url="http://mcp.test/mcp", timeout=5.0)) as (read, write):
+                        url = "http://mcp.test/mcp"
+                        if entry:
+                            from chuk_mcp.transports import create_client, create_transport
+                            from chuk_mcp.transports.http.http_client import create_http_parameters_from_url, try_http_with_sse_fallback
+
+                            p = create_http_parameters_from_url(url, timeout=5.0)
+                            if entry == "create_client":
+                                cm = create_client("http", p)
+                            elif entry == "create_transport":
+                                cm = _via_transport(create_transport("http", p))
+                            else:
+                                cm = await try_http_with_sse_fallback(url, timeout=5.0)
+                                info["selected"] = "http"
+                        else:
+                            cm = http_client(StreamableHTTPParameters(url=url, timeout=5.0))
+                        async with cm as (read, write):
                             info["outcomes"] = await drive(read, write, steps, log, q)
             else:
                 from chuk_mcp.transports.sse.parameters import SSEParameters
@@ -262,7 +327,19 @@ def run_carrier(carrier: str, steps: List[dict], driver: str = "helpers") -> Dic
 
                 async def handler(rec):
                     if rec.method == "GET":
+                        if "cache-control" not in rec.headers:
+                            # a probe of detect_transport_type (the transport's own GET asks for no-cache): it reads the whole
+                            # body, so it gets a finite one
+                            info["detect_gets"] = info.get("detect_gets", 0) + 1
+                            if entry.endswith("server-speaks-sse-only"):
+                                return httpx.Response(200, headers={"content-type": "text/event-stream"}, content=b": hello\n\n")
+                            return httpx.Response(404, content=b"nothing")
                         return httpx.Response(200, headers={"content-type": "text/event-stream"}, stream=stream)
+                    sent = rec.json()
+                    if isinstance(sent, dict) and sent.get("id") == DETECT_ID:
+                        # this server does not speak Streamable HTTP
+                        info["detect_posts"] = info.get("detect_posts", 0) + 1
+                        return httpx.Response(405, content=b"method not allowed")
                     head = "" if "untyped" in carrier else "event: message\n"
                     for m in script.answer(rec.json()):
                         stream.feed((head + "data: " + json.dumps(m, ensure_ascii=False) + "\n\n").encode("utf-8"))
@@ -280,7 +357,25 @@ def run_carrier(carrier: str, steps: List[dict], driver: str = "helpers") -> Dic
                         info["outcomes"] = await drive_client(SSETransport(SSEParameters(url="http://sse.test", timeout=5.0)),
                                                               steps, log, q)
                     else:
-                        async with sse_client(SSEParameters(url="http://sse.test", timeout=5.0)) as (read, write):
+                        url = "http://sse.test"
+                        if entry:
+                            from chuk_mcp.transports import create_client, create_transport
+                            from chuk_mcp.transports.http.http_client import try_http_with_sse_fallback
+                            from chuk_mcp.transports.sse.sse_client import create_sse_parameters_from_url, try_sse_with_fallback
+
+                            p = create_sse_parameters_from_url(url, timeout=5.0)
+                            if entry == "create_client":
+                                cm = create_client("sse", p)
+                            elif entry == "create_transport":
+                                cm = _via_transport(create_transport("sse", p))
+                            elif entry == "try_sse_with_fallback":
+                                cm = await try_sse_with_fallback(url, timeout=5.0)
+                            else:
+                                cm = await try_http_with_sse_fallback(url + "/mcp", timeout=5.0)
+                                info["selected"] = "sse"
+                        else:
+                            cm = sse_client(SSEParameters(url=url, timeout=5.0))
+                        async with cm as (read, write):
                             info["outcomes"] = await drive(read, write, steps, log, q)
 
     status, val = loop.run_main(main())
@@ -320,6 +415,7 @@ def run_carrier(carrier: str, steps: List[dict], driver: str = "helpers") -> Dic
             "requests": [{"method": r.get("method"), "params": r.get("params"), "has_id": "id" in r}
                          for r in script.seen if isinstance(r, dict)],
             "assigned": list(script.assigned),
+            "detect": [info.get("detect_posts", 0), info.get("detect_gets", 0)] if entry.startswith("try_http") else None,
             "loop_errors": errors[:2]}
 
 
@@ -346,6 +442,8 @@ def run_one(ctl: explorer.Ctl, cfg: Dict[str, Any]) -> Dict[str, Any]:
     carriers = [c for c in CARRIERS if not (c == "http-json" and any(s["notes"] for s in steps))]
     if cfg.get("untyped"):
         carriers += UNTYPED_CARRIERS
+    if cfg.get("entries"):
+        carriers += [f"{c}@{e}" for c in list(carriers) for e in ENTRIES.get(c, [])]
     results = {c: run_carrier(c, steps, cfg.get("driver", "helpers")) for c in carriers}
     viol: List[dict] = []
 
@@ -356,7 +454,17 @@ def run_one(ctl: explorer.Ctl, cfg: Dict[str, Any]) -> Dict[str, Any]:
                 return f"item {i} differs in {sorted(keys)}: {x} vs {y}"
         return f"lengths {len(a)} vs {len(b)}"
 
+    refused = []
     for c, r in results.items():
+        if r["status"] != "ok" and "@create_" in c and c.startswith("http-") and "HTTP transport not available" in str(r["error"]):
+            # OPEN OBSERVATION on the current tree (reported; judged only when JUDGE_HTTP_FACTORY is set): chuk_mcp.transports
+            # imports names the http package does not export (HTTPTransport, HTTPParameters), so HAS_HTTP is False and
+            # create_client("http", ...) / create_transport("http", ...) always raise although httpx is installed
+            refused.append(c)
+            if JUDGE_HTTP_FACTORY:
+                viol.append({"sig": {"class": "factory-refuses-an-installed-transport", "entry": c.split("@")[1], "transport": "http"},
+                             "msg": f"steps={steps} carrier={c}: {r['error']}"})
+            continue
         if r["status"] != "ok":
             viol.append({"sig": {"class": "carrier-did-not-finish", "carrier": c},
                          "msg": f"steps={steps} carrier={c}: {r['status']} {r['error']}"})
@@ -369,6 +477,9 @@ def run_one(ctl: explorer.Ctl, cfg: Dict[str, Any]) -> Dict[str, Any]:
                          "msg": f"steps={steps} carrier={c}: {where(r['transcript'], exp)}"})
         if r["loop_errors"]:
             viol.append({"sig": {"class": "loop-error", "carrier": c}, "msg": f"{r['loop_errors']}"})
+    for c, r in results.items():
+        if r.get("detect") is not None and r["status"] == "ok" and r["detect"][0] == 0:
+            raise core.HarnessError(f"seam missing: {c} never sent its transport-detection probe")
     ok = [c for c in results if results[c]["status"] == "ok"]
     for a, b in itertools.combinations(ok, 2):
         ra, rb = results[a], results[b]
@@ -381,7 +492,8 @@ def run_one(ctl: explorer.Ctl, cfg: Dict[str, Any]) -> Dict[str, Any]:
     first = results[ok[0]] if ok else {}
     outs = first.get("outcomes") or []
     return {"outcome": "/".join(o[0] + (":" + str(o[2]) if o[0] == "exc" else "") for o in outs) + f"|{len(carriers)}c",
-            "outcomes": outs, "steps": steps, "violations": viol}
+            "outcomes": outs, "steps": steps, "violations": viol,
+            "counters": {"carrier-runs": len(carriers), "not-judged:http-factory-refused-although-httpx-is-installed": len(refused)}}
 
 
 def steps_full() -> List[Dict[str, Any]]:
@@ -428,6 +540,9 @@ def run(tier: str, only=None) -> core.Result:
     cfgs += [{"steps": [a, b], "untyped": True} for a in pathy for b in pathy]
     cfgs += [{"steps": [a, b], "untyped": True} for a in pathy for b in red]
     cfgs += [{"steps": [a, b], "untyped": True} for a in red for b in pathy]
+    # the factories / migration helpers as additional ways of obtaining every carrier
+    inits = [s for s in red if s["helper"] == "initialize"]
+    ecfgs = [{"steps": [s], "entries": True} for s in red] + [{"steps": [a, b], "entries": True} for a in inits for b in red]
     if tier == "thorough":
         cfgs += [{"steps": [a, b, c]} for a in red for b in red for c in red]
     out = explorer.explore(RUN, cfgs, fidelity=True)
@@ -442,6 +557,12 @@ def run(tier: str, only=None) -> core.Result:
     out = explorer.explore(RUN, ccfgs, fidelity=True)
     sched.absorb(res, "mcpclient-over-transports", RUN, out, ccfgs)
     sched.debug_pass(res, "conversations", RUN, [c for c in cfgs if len(c["steps"]) == 1], every=1)
+    out = explorer.explore(RUN, ecfgs, fidelity=True)
+    sched.absorb(res, "carriers-obtained-through-factories-and-fallback-helpers", RUN, out, ecfgs)
+    res.coverage["entry_point_conversations"] = len(ecfgs)
+    res.coverage["entry_points"] = ENTRIES
+    res.coverage["http_factory_refusals_not_judged"] = res.parts["carriers-obtained-through-factories-and-fallback-helpers"][
+        "counters"].get("not-judged:http-factory-refused-although-httpx-is-installed", 0)
     res.coverage["carrier_runs"] = res.coverage["evaluations"] * len(CARRIERS) + \
         len([c for c in cfgs if c.get("untyped")]) * len(UNTYPED_CARRIERS)
     res.coverage["exhaustive"] = True
@@ -452,11 +573,18 @@ def run(tier: str, only=None) -> core.Result:
         "Streamable HTTP with JSON body; legacy SSE in both orders of (202 acknowledgement, answer event); plus 37 steps whose result, "
         "error message and notification params carry an endpoint-looking text (/messages/, /mcp, http://x/mcp?a=1): alone, paired with "
         "each other and paired (both orders) with the reduced step set; those and all single-step conversations additionally over "
-        "legacy SSE with UNTYPED events (both orders); distinct = distinct observation digests"
+        "legacy SSE with UNTYPED events (both orders); a reduced conversation set (26 single steps, 4 x 26 pairs starting with "
+        "initialize) additionally with every carrier obtained through transports.create_client, transports.create_transport, "
+        "create_http_parameters_from_url / create_sse_parameters_from_url, try_sse_with_fallback and try_http_with_sse_fallback "
+        "(the scripted server answers detect_transport_type's probes as an HTTP-only, HTTP+SSE, SSE-only or undetectable server, "
+        "which decides the carrier selected): same transcript and outcomes as through the direct context managers; "
+        "distinct = distinct observation digests"
     )
     res.assumptions = [
         "each carrier is fed its canonical encoding in whole-line / whole-event chunks (framing and encoding variants are decided by C05, C11, C12)",
         "HTTP with a JSON body cannot carry notifications before a response and is compared on conversations without them",
         "ids are compared as 'the id of request i' (value and JSON type), since each run draws its own ids",
+        "create_client('http', ...) / create_transport('http', ...) raise 'HTTP transport not available' on the current tree "
+        "(transports/__init__.py imports names the http package does not export): run, counted, NOT judged - reported as an open observation",
     ]
     return res
